@@ -80,13 +80,13 @@ def coq_make(targets, timeout=1500, clean=False):
         coq_project()
         if clean:
             sh(['make', 'clean'], cwd=COQ, timeout=300)
+        # definitions first (Common/Gen/Model/Spec: needed by the extraction even when a proof is broken); failures here
+        # surface again below if the property depends on them
+        defs = []
+        for d in ('Common', 'Gen', 'Model', 'Spec'):
+            defs += [os.path.relpath(f, COQ)[:-2] + '.vo' for f in sorted(glob.glob(os.path.join(COQ, d, '*.v')))]
+        sh(['make', '-k', '-j' + NPROC] + defs, cwd=COQ, timeout=timeout)
         rc, out = sh(['make', '-k', '-j' + NPROC] + targets, cwd=COQ, timeout=timeout)
-        # Print Assumptions output only appears when a file is actually compiled; keep it next to the .vo
-        for t in targets:
-            vo = os.path.join(COQ, t)
-            lg = vo[:-3] + '.log'
-            if rc == 0 and ('COQC ' + t[:-1]) in out.replace('.v\n', '.v\n'):
-                open(lg, 'w').write(out)
     return rc == 0, out
 
 
@@ -191,6 +191,7 @@ def run_lines(exe, args, lines, timeout=900, env=None):
     out = p.stdout.decode('latin-1').split('\n')
     if out and out[-1] == '':
         out.pop()
+    out = [' '.join(l.split()) for l in out]
     return out, p.stderr.decode('latin-1')[-2000:]
 
 
